@@ -74,7 +74,7 @@ class C01(PropCheck):
             "exceptions; as generator, coroutine and async generator; 3 (quick) / 8 (thorough) choice lists each; every suspension "
             "point observed; non-trivial = some manager active at some observation; distinct = (program, choices)")
     manifest = {
-        "text": "Lean (M-A, SSModel/ExcTable.lean): C01_varint_roundtrip / C01_varint_msb / C01_table_roundtrip (the decoder of co_exceptiontable inverts the assembler's encoding for every entry list and any sizes), C01_truncated_tail, C01_cpython_encoder (CPython's five-case assembler routine is that encoder below 2^30), C01_bisect_partition (the standard library's binary search, transcribed, finds the partition point on sorted disjoint tables), C01_walk_chain (on a table with sorted, disjoint ranges inspect_frame's bisect walk is the same function as iterating the interpreter's own handler lookup from each handler's target: same blocks, same order), C01_walk_terminates (when handlers lie after the ranges they protect the loop ends within |table|+1 iterations) and C01_walk_cycle (a handler inside its own range makes the unguarded loop spin), C01_join_exact (the context list is one entry per with-handler of the chain, in chain order, exiting one last) and C01_join_fails_closed (a missing slot or a slot without __self__ fails the whole analysis: never a shorter or shifted list). Tie: every program's real co_exceptiontable bytes go through the model's decoder, re-encoder, walk at every observed f_lasti, and are compared with _parse_exception_table and inspect_frame(...).blocks; sortedness/disjointness (the theorems' hypothesis) is checked on every table. That CPython's compiler only emits code on which this chain equals the set of entered-not-exited managers is NOT proved: it is measured on every run by executing generated programs under recorded choices and comparing with instrumented managers' event logs at every suspension point.",
+        "text": "Lean (SSModel/Localsplus.lean): C01_nlocalsplus_source (the slot-count expression of inspect_frame, re-read from the source on every run), C01_nlocalsplus_layout (that expression is CPython's layout -- one slot per local, one per cell that is not also a local, one per free variable -- for duplicate-free co_varnames / co_cellvars) and C01_nlocalsplus_rewrites_wrong (two plausible rewrites differ from it on shapes 3.12 produces); tied to CPython by comparing the model's count with the number of slots the interpreter itself reports (code._varname_from_oparg) on every code object of the corpus and of a slice of the standard library. Lean (M-A, SSModel/ExcTable.lean): C01_varint_roundtrip / C01_varint_msb / C01_table_roundtrip (the decoder of co_exceptiontable inverts the assembler's encoding for every entry list and any sizes), C01_truncated_tail, C01_cpython_encoder (CPython's five-case assembler routine is that encoder below 2^30), C01_bisect_partition (the standard library's binary search, transcribed, finds the partition point on sorted disjoint tables), C01_walk_chain (on a table with sorted, disjoint ranges inspect_frame's bisect walk is the same function as iterating the interpreter's own handler lookup from each handler's target: same blocks, same order), C01_walk_terminates (when handlers lie after the ranges they protect the loop ends within |table|+1 iterations) and C01_walk_cycle (a handler inside its own range makes the unguarded loop spin), C01_join_exact (the context list is one entry per with-handler of the chain, in chain order, exiting one last) and C01_join_fails_closed (a missing slot or a slot without __self__ fails the whole analysis: never a shorter or shifted list). Tie: every program's real co_exceptiontable bytes go through the model's decoder, re-encoder, walk at every observed f_lasti, and are compared with _parse_exception_table and inspect_frame(...).blocks; sortedness/disjointness (the theorems' hypothesis) is checked on every table. That CPython's compiler only emits code on which this chain equals the set of entered-not-exited managers is NOT proved: it is measured on every run by executing generated programs under recorded choices and comparing with instrumented managers' event logs at every suspension point.",
         "note": "Partial: the compiler-output half of the property is measured, not proved; bisect.bisect_left is transcribed as a fuel-bounded binary search; CPython 3.12 only. F2 (with bodies ending in try/except, try/finally or a conditional return, being exited) was repaired in /repo; its witness still runs on every check.",
     }
     assumptions = ["co_exceptiontable format and the ceval handler lookup as in CPython 3.11/3.12", "the ctypes layout of _PyInterpreterFrame (checked by the module's own import-time asserts)"]
@@ -96,6 +96,16 @@ class C01(PropCheck):
             for _ in range(reps):
                 out.append({"k": "prog", "kind": kind, "pseed": seed, "depth": depth,
                             "choices": [rng.randrange(6) for _ in range(rng.randint(0, 14))]})
+        # where the value stack starts: the slot count used by inspect_frame (tied to the source through the generated constant
+        # nlocalsplusExpr) against CPython's own layout, on every code object of the corpus and of a slice of the standard library
+        from .c08 import stdlib_files
+
+        files = stdlib_files()
+        rng.shuffle(files)
+        out.append({"k": "slots", "files": [], "corpus": True})
+        step = 25
+        for i in range(0, 100 if tier == "quick" else len(files), step):
+            out.append({"k": "slots", "files": files[i:i + step]})
         for ci, (kind, _src) in enumerate(progs.CORPUS):
             if kind != "sync":
                 for ch in ([], [1], [0, 1], [1, 0, 1], [0, 0, 1, 1], [1, 1, 0, 1, 0], [0, 1, 1, 0, 1, 1]):
@@ -105,8 +115,60 @@ class C01(PropCheck):
     def known_witnesses(self):
         return [{"id": "F2", "case": {"k": "f2"}}, {"id": "F12", "case": {"k": "f12"}}]
 
+    def run_slots(self, case):
+        import types
+
+        from ..translate_consts import extract as _extract_consts
+        from ..core import REPO
+        from stackscope import _lowlevel_cpython_311 as impl
+
+        if not hasattr(self, "_slot_expr"):
+            self._slot_expr = _extract_consts(REPO)[0].get("nlocalsplusExpr")
+        codes = []
+
+        def walk(co):
+            codes.append(co)
+            for c in co.co_consts:
+                if isinstance(c, types.CodeType):
+                    walk(c)
+
+        if case.get("corpus"):
+            for kind, src in progs.CORPUS + progs.CORPUS_ODD:
+                walk(compile(src, "<corpus>", "exec"))
+        for f in case["files"]:
+            try:
+                walk(compile(open(f, "rb").read(), f, "exec"))
+            except (SyntaxError, ValueError, OSError):
+                pass
+        reals = []
+        bad = 0
+        for co in codes:
+            n = 0
+            while True:
+                try:
+                    co._varname_from_oparg(n)
+                    n += 1
+                except IndexError:
+                    break
+            reals.append(n)
+            # what the library's own expression gives on this code object, evaluated in the library module's namespace
+            try:
+                lib = eval(self._slot_expr, dict(vars(impl)), {"co": co}) if self._slot_expr else None
+            except Exception:
+                lib = None
+            if lib is not None and lib != n and bad < 3:
+                bad += 1
+                self._probs.append(f"code object {co.co_name!r} of {co.co_filename}:{co.co_firstlineno} has {n} localsplus slots (varnames "
+                                   f"{co.co_varnames}, cellvars {co.co_cellvars}, freevars {co.co_freevars}); the expression inspect_frame "
+                                   f"uses ({self._slot_expr}) gives {lib}: the value stack would be read {lib - n:+d} slots off")
+        case["_codes"] = [[list(co.co_varnames), list(co.co_cellvars), list(co.co_freevars)] for co in codes]
+        case["_shared"] = sum(bool(set(co.co_varnames) & (set(co.co_cellvars) | set(co.co_freevars))) for co in codes)
+        return " ".join(map(str, reals))
+
     def run_real(self, case):
         self._probs = []
+        if case["k"] == "slots":
+            return self.run_slots(case)
         if case["k"] == "f2":
             return self.run_f2()
         if case["k"] == "f12":
@@ -169,6 +231,8 @@ class C01(PropCheck):
         return json.dumps([[r["lasti"], r["got"], r["warnings"]] for r in recs])
 
     def model_line(self, case):
+        if case.get("k") == "slots":
+            return json.dumps({"p": "C01", "k": "nlocalsplus", "codes": case["_codes"]})
         if "_facts" not in case:
             return None
         return progs.table_model_line(case["_facts"], [(l, r) for l, r, _, _ in case["_points"]])
@@ -188,6 +252,8 @@ class C01(PropCheck):
             return f2[0] if f2 else None
         if case.get("k") == "f12":
             return probs[0] if probs else None
+        if case.get("k") == "slots":
+            return "; ".join(probs[:2])[:900] if probs else None
         if self.f2_known:
             # an observation point at which the F2 warning fired is degraded as a whole (fallback analysis)
             if any(self.is_f2(p) for p in probs):
@@ -196,6 +262,8 @@ class C01(PropCheck):
         return "; ".join(probs[:2])[:900] if probs else None
 
     def nontrivial_key(self, case, real):
+        if case.get("k") == "slots":
+            return json.dumps({"files": case["files"][:3], "corpus": case.get("corpus", False)}) if case.get("_shared") else None
         if isinstance(real, str) and "true" in real or (isinstance(real, str) and "[[" in real and "]]" in real and real.count("[") > 3):
             return json.dumps({k: v for k, v in case.items() if not k.startswith("_")}, sort_keys=True)
         return None
@@ -205,7 +273,11 @@ class C01(PropCheck):
              "tables_compared": sum("_facts" in c for c in cases), "table_entries": sum(len(c["_facts"]["views"]) for c in cases if "_facts" in c),
              "tables_not_forward": sum(not c["_facts"]["forward"] for c in cases if "_facts" in c),
              "walks_compared": sum(len(c.get("_points", [])) for c in cases)}
+        d["code_objects_slot_count_compared"] = sum(len(c.get("_codes", [])) for c in cases)
+        d["code_objects_with_a_name_in_two_tables"] = sum(c.get("_shared", 0) for c in cases)
         for c in cases:
+            if c.get("k") == "slots":
+                continue
             d["observations"] += c.get("_obs", 0)
             d["by_kind"][c.get("kind", "?")] = d["by_kind"].get(c.get("kind", "?"), 0) + 1
         return d
